@@ -235,6 +235,8 @@ class StraightLine:
                     elif "f" in e:
                         if base[0] == "bin" and base[1].endswith("WithOverflow"):
                             base = ("bin", base[1][:-len("WithOverflow")], base[2], base[3]) if e["f"] == 0 else ("ovf", base)
+                        elif base[0] == "agg" and base[1] == "tuple" and e["f"] < len(base[3]):
+                            base = base[3][e["f"]]
                         else:
                             base = ("field", base, e.get("n") if e.get("n") is not None else e["f"])
                     elif "d" in e:
